@@ -15,7 +15,7 @@ PROP = {'title': 'Checked conversions and integer helpers equal their mathematic
          'across a type/size boundary, has a non-zero remainder, a negative operand or differs from its operand (per-function predicate in '
          'harness/C06.cpp); cases are distinct argument tuples. from_int: enums with 1..200 enumerators and enums whose size is 255, 256, 257, 300, 512, 65535, 65536, '
          '65537, 70000, 2^32, 2^32+1 (the size does not fit the 8/16/32-bit value type) x value types u8/u16 (every value), u32/u64 (lattice plus the values around the '
-         'size). math::mod<float/double> (documented as std::fmod): all ordered pairs from a domain of multiples of 1/4 (0..65 in quarters, 2^k and its neighbours, '
+         'size). math::mod<float/double/long double> (documented as std::fmod): all ordered pairs from a domain of multiples of 1/4 (0..65 in quarters, 2^k and its neighbours, '
          '2^k+-1, 1.25*2^k for k = 7..118, powers of ten), both signs of the dividend, oracle = 128-bit integer remainder of the operands scaled by 4',
  'assumptions': ["cases whose exact result is not representable in the result type are skipped (statement: 'whenever it is representable')",
                  'log2(0) is documented as undefined and skipped',
